@@ -142,3 +142,29 @@ MUTANTS += [
    "        if sort:\n            self.entries = sorted(self.entries)",
    "        if sort and len(self.entries) < 4:\n            self.entries = sorted(self.entries)")]),
 ]
+
+PF = 'gemato/profile.py'
+MUTANTS += [
+ # ---- C13
+ dict(id='c13-watermark-gt', props=['C13'], edits=[(PF,
+   "return (unc_size >= compress_watermark and relpath != 'Manifest')",
+   "return (unc_size > compress_watermark and relpath != 'Manifest')")]),
+ dict(id='c13-top-compressed', props=['C13'], edits=[(PF,
+   "return (unc_size >= compress_watermark and relpath != 'Manifest')",
+   "return (unc_size >= compress_watermark)")]),
+ dict(id='c13-no-unlink', props=['C13'], edits=[(RL,
+   "                        os.unlink(os.path.join(self.root_directory,\n                                               mpath))",
+   "                        pass")]),
+ dict(id='c13-renamed-lookup-skipped', props=['C13'], edits=[(RL,
+   "                if fullpath in renamed_manifests:\n                    fullpath = renamed_manifests[fullpath]\n                    e.path = os.path.relpath(fullpath, relpath)",
+   "                pass")]),
+ dict(id='c13-lzma-as-xz', props=['C13'], edits=[(CP,
+   "return lzma.LZMAFile(f, format=lzma.FORMAT_ALONE, mode=mode)",
+   "return lzma.LZMAFile(f, format=(lzma.FORMAT_ALONE if 'w' in mode else lzma.FORMAT_XZ), mode=mode)")]),
+ dict(id='c13-lookup-skips-compressed', props=['C13'], edits=[(RL,
+   "                        if curmpath == mpath or mpath in self.loaded_manifests:\n                            continue\n                        mdir = os.path.dirname(mpath)\n                        if not verify:",
+   "                        if curmpath == mpath or mpath in self.loaded_manifests:\n                            continue\n                        mdir = os.path.dirname(mpath)\n                        if not recursive and mpath.endswith('.bz2'):\n                            continue\n                        if not verify:")]),
+ dict(id='c13-format-ignored-on-recompress', props=['C13'], edits=[(RL,
+   "                            new_mpath = mpath + '.' + compress_format",
+   "                            new_mpath = mpath + '.gz'")]),
+]
